@@ -20,6 +20,16 @@ def _t(text, tech, ref, note=TRACE_NOTE):
     return dict(text=text, technique=tech, design_ref=ref, note=note)
 
 TEXT.update({
+ "C13": dict(
+    technique="PairTrace.tla (self-composition of twin traces) checked by TLC + direction-parameterised TLA+ definitions (Engines/Sprout/NBC/R5S.tla) whose tables are replayed in both directions",
+    text="Whole-run form: seeded twin runs on (f, maximize) and (-f, minimize) over index-stable engine mixes are recorded and PairTrace.tla requires identical event streams (genome ids, goodness ranks, tree projections, digests) - this covers the descent direction of CMA-ES and the local search. Decision form: every selection definition is written on goodness ranks; TLC-generated tables for individual ordering, top-k, (mu+k) truncation, DE/SHADE replacement, tournament, NBC, DemeLimit/LevelLimit and R5S are replayed on the real components in both formulations and the two results must agree with the table and with each other.",
+    note="Trusted: TLC, recorder, rank/id projection. SEA-family whole runs, MWEA utility and FitnessSteadiness are excluded as the property excludes them.",
+    design_ref="4/C13"),
+ "C14": dict(
+    technique="PairTrace.tla (self-composition of repeat traces) checked by TLC over a seeded corpus",
+    text="For configurations of the full engine matrix the same seeded run is recorded in-process, again after scrambling the global random/numpy generators, and in a fresh subprocess with a different PYTHONHASHSEED; PairTrace.tla requires the event streams (ids, start metaepochs, genome ids, ranks, counters, flags, digests) to be equal and reports the first differing event; each run is also validated by HMSTrace.",
+    note="Trusted: TLC, recorder. The specification's contribution is equality of behaviours; the quantifier is carried by the corpus (see evidence).",
+    design_ref="4/C14"),
  "C15": dict(
     technique="TLA+ definition of nearest-better clustering (NBC.tla) checked by TLC; exhaustive lattice tables replayed on NearestBetterClustering with metamorphic images",
     text="NBC.tla is the definition in integers (ties, truncation as a relation, strictly-better attachment, threshold test exact); TLC checks best-is-seed, scale/translate/mirror invariance and factor monotonicity on every bounded population and writes every case with its acceptable results; the replay runs the real class on each case under several embeddings (dimension, axis, exact scales incl. spacing 2^-30 around 1.0 and 2^20), permuted input orders and both directions, comparing seeds and distances.",
